@@ -98,20 +98,33 @@ fn tnd(d: &NaiveDateTime) -> i64 {
 }
 fn state_json(o: &dyn Obj, queries: &[i64]) -> Value {
     let nodes: Vec<Value> = o.nodes().iter().map(|(d, v)| json!({"d": tnd(d), "v": number_json(v)})).collect();
+    let mut tags: Vec<String> = vec![];
+    for (_, v) in o.nodes().iter() {
+        for nm in number_vars(v) {
+            if !tags.contains(&nm) { tags.push(nm); }
+        }
+    }
     let mut q = vec![];
     for &x in queries {
         let date = tdn(x);
         let idx = guard(|| o.node_index(x * (86400 / unit())));
         let val = guard(|| o.value(&date));
         let iv = guard(|| o.index_value(&date));
+        // the sensitivities as a user reads them: by the node tags, in node order (not the value's own variable order)
+        let (gt, ht) = match &val {
+            Outcome::Ok(v) => (guard(|| grad1(v, &tags)), guard(|| grad2(v, &tags))),
+            Outcome::Panic(_) => (Outcome::Panic(String::new()), Outcome::Panic(String::new())),
+        };
         q.push(json!({"x": x,
+            "gt": match &gt { Outcome::Ok(g) => fvec(g), Outcome::Panic(_) => json!("panic") },
+            "ht": match &ht { Outcome::Ok(h) => fmat(h), Outcome::Panic(_) => json!("panic") },
             "idx": match idx { Outcome::Ok(i) => json!(i), Outcome::Panic(_) => json!(-1) },
             "o": match &val { Outcome::Ok(_) => "ok", Outcome::Panic(_) => "panic" },
             "val": match &val { Outcome::Ok(v) => number_json(v), Outcome::Panic(_) => json!({"k":"dead"}) },
             "ivo": match &iv { Outcome::Ok(Ok(_)) => "ok", Outcome::Ok(Err(_)) => "err", Outcome::Panic(_) => "panic" },
             "iv": match &iv { Outcome::Ok(Ok(v)) => number_json(v), _ => json!({"k":"dead"}) }}));
     }
-    json!({"ad": ad_num(o.order()), "nodes": nodes, "q": q})
+    json!({"ad": ad_num(o.order()), "nodes": nodes, "tags": tags, "q": q})
 }
 
 pub struct Spec {
